@@ -208,6 +208,40 @@ type KeyConf struct {
 	Fields  []reflect.StructField
 	Cols    []string // db column names of the key, in field order
 	AutoInc bool     // the (single) key is an auto-increment integer
+	// ExtraCols: further columns the configuration brings (foreign key column)
+	ExtraCols []string
+	// Relation: the configuration contains a belongs-to relation to Owner; such
+	// models cannot be used through db.Table(name) (AutoMigrate would migrate
+	// the related model into the same table): give the gorm.Config the
+	// typegram.Namer instead, which maps the nameless StructOf type to TableName.
+	Relation bool
+}
+
+// Owner is the parent of the belongs-to relation of RelKeys.
+type Owner struct {
+	ID   uint
+	Name string
+}
+
+// TableName is the table of every nameless (reflect.StructOf) model under Namer.
+const TableName = "t"
+
+// Namer is the default naming strategy except that a struct type without a
+// name (reflect.StructOf) gets the table TableName.
+type Namer struct{ schema.NamingStrategy }
+
+func (n Namer) TableName(str string) string {
+	if str == "" {
+		return TableName
+	}
+	return n.NamingStrategy.TableName(str)
+}
+
+// RelKeys are key configurations with a relation; they are not part of Keys
+// (C03 does not enumerate them) but KeyByName finds them.
+var RelKeys = []KeyConf{
+	{Name: "autoid_belongs_to", Fields: []reflect.StructField{sf("ID", tUint, ""), sf("OwnerID", tUint, ""), sf("Owner", reflect.TypeOf(Owner{}), "")},
+		Cols: []string{"id"}, AutoInc: true, ExtraCols: []string{"owner_id"}, Relation: true},
 }
 
 func sf(name string, t reflect.Type, gormTag string) reflect.StructField {
@@ -237,6 +271,11 @@ func KeyByName(n string) *KeyConf {
 	for i := range Keys {
 		if Keys[i].Name == n {
 			return &Keys[i]
+		}
+	}
+	for i := range RelKeys {
+		if RelKeys[i].Name == n {
+			return &RelKeys[i]
 		}
 	}
 	return nil
